@@ -30,6 +30,12 @@ structure TCtl where
   locals : List (Nat × Option Nat) := []
   /-- keys whose destructor still has to perform its loom operation (`tlsdtor=1`) -/
   dtorQueue : List Nat := []
+  /-- the waker this thread has taken out of an `AtomicWaker` and is about to wake / drop: the index (in
+  `World.arcs`) of its `Arc` and the object index of its `rt::Notify` -/
+  taken : Nat := 0
+  takenNotify : Nat := 0
+  /-- waker clones this thread keeps (`wclone`): future ↦ (index of the waker's `Arc`, its `rt::Notify`) -/
+  held : List (Nat × Nat × Nat) := []
 deriving Repr, Inhabited
 
 /-- state of a scripted future (C20) -/
@@ -40,6 +46,8 @@ structure FutSt where
   arc : Nat := 0                  -- index (in `World.arcs`) of the `Arc<rt::Notify>` of that `block_on`
   slot : Bool := false            -- a waker clone sits in the plain slot
   awWaker : Bool := false         -- a waker clone sits in the `AtomicWaker`
+  awArc : Nat := 0                -- … which `block_on` it belongs to: its `Arc` (index in `World.arcs`)
+  awNotify : Nat := 0             -- … and its `rt::Notify`
 deriving Repr, Inhabited
 
 structure HandleSt where
@@ -475,6 +483,12 @@ def wakerDrop (w : World) (a : Nat) : Except Panic World := do
   let (w, last) ← w.refDecEffect (w.arcInfo a).obj
   w.afterDec a last
 
+/-- the scripted future's readiness test: the flag load's ordering and the value that means "ready" -/
+def pollPrim (mode : Nat) : Prim := .load (if mode == 2 then .rlx else .acq)
+def pollTarget (mode : Nat) : Ret := .val (if mode == 2 then 2 else 1)
+/-- does the future register its waker in the mutex-protected slot (else: in the `AtomicWaker`)? -/
+def slotMode (mode : Nat) : Bool := mode == 0 || mode == 2
+
 /-- the stages of `block_on(Scripted{f, mode})` followed by dropping what the future still owns -/
 def blockOnStage (w : World) (c : TCtl) (f mode : Nat) : Except Panic World := do
   let fs := w.futs.getD f {}
@@ -487,14 +501,14 @@ def blockOnStage (w : World) (c : TCtl) (f mode : Nat) : Except Panic World := d
     let a := w.arcs.length
     let w := { w with arcs := w.arcs ++ [({ obj := o } : ArcInfo)] }
     pure ((w.modFut f fun s => { s with notify := n, arc := a }).setStage 10)
-  | 10 => w.primStart f (.load .acq) 11
+  | 10 => w.primStart f (pollPrim mode) 11
   | 11 => do
     -- first flag check of `poll`
-    let (w, r) ← w.primEffect f (.load .acq)
-    if r == .val 1 then (w.setStage 40).branch ao .arcDec
-    else (w.setStage (if mode == 0 then 12 else 20)).branch ao .arcInc
+    let (w, r) ← w.primEffect f (pollPrim mode)
+    if r == pollTarget mode then (w.setStage 40).branch ao .arcDec
+    else (w.setStage (if slotMode mode then 12 else 20)).branch ao .arcInc
   | 12 => do
-    -- mode 0: `let mut g = slot.lock(); *g = Some(waker); drop(g)`
+    -- slot modes: `let mut g = slot.lock(); *g = Some(waker); drop(g)`
     let w ← w.wakerClone fs.arc
     let m ← w.getMutex fs.slotMutex
     (w.setStage 30).branch fs.slotMutex .opaque (block := m.lock.isSome)
@@ -511,10 +525,13 @@ def blockOnStage (w : World) (c : TCtl) (f mode : Nat) : Except Panic World := d
     let w ← w.wakerDrop fs.arc
     let w ← w.releaseLock fs.slotMutex
     pure (w.setStage 14)
-  | 14 => w.primStart f (.load .acq) 15
+  | 14 => w.primStart f (pollPrim mode) 15
   | 15 => do
-    let (w, r) ← w.primEffect f (.load .acq)
-    if r == .val 1 then (w.setStage 40).branch ao .arcDec
+    let (w, r) ← w.primEffect f (pollPrim mode)
+    if r == pollTarget mode then (w.setStage 40).branch ao .arcDec
+    else if mode == 4 then
+      -- `block_on(poll_once(future))`: the future is polled once; `block_on` returns although it is pending
+      (w.setStage 41).branch ao .arcDec
     else
       let t := w.tid
       let (w, st) ← w.notifyWait1 fs.notify
@@ -530,8 +547,11 @@ def blockOnStage (w : World) (c : TCtl) (f mode : Nat) : Except Panic World := d
     if !okk then (w.setStage 22).branch fs.notify .opaque
     else
       let had := fs.awWaker
-      let w := w.modFut f fun s => { s with awWaker := true }
-      if had then (w.setStage 25).branch ao .arcDec
+      let w := w.modFut f fun s => { s with awWaker := true, awArc := fs.arc, awNotify := fs.notify }
+      if had then
+        -- the waker that was registered (possibly of an earlier `block_on`) is dropped
+        let w := w.modCtl w.tid fun c => { c with taken := fs.awArc }
+        (w.setStage 25).branch (w.arcInfo fs.awArc).obj .arcDec
       else do
         let w ← w.releaseLock fs.awMutex
         pure (w.setStage 14)
@@ -542,18 +562,22 @@ def blockOnStage (w : World) (c : TCtl) (f mode : Nat) : Except Panic World := d
     let w ← w.wakerDrop fs.arc
     (w.setStage 14).yieldNow
   | 25 => do
-    let w ← w.wakerDrop fs.arc
+    let w ← w.wakerDrop c.taken
     let w ← w.releaseLock fs.awMutex
     pure (w.setStage 14)
   | 40 => do
     -- `block_on` returns: its own `Arc` handle is dropped
     let w ← w.wakerDrop fs.arc
-    if mode == 0 then
+    if slotMode mode then
       let m ← w.getMutex fs.slotMutex
       (w.setStage 45).branch fs.slotMutex .opaque (block := m.lock.isSome)
+    else if mode == 3 || mode == 4 then pure (w.complete (.val 7))
     else
       let m ← w.getMutex fs.awMutex
       (w.setStage 44).branch fs.awMutex .opaque (block := m.lock.isSome)
+  | 41 => do
+    let w ← w.wakerDrop fs.arc
+    pure (w.complete (.val 0))
   | 45 => do
     let (w, okk) ← w.postAcquire fs.slotMutex
     if !okk then throw .expectedLock
@@ -570,15 +594,48 @@ def blockOnStage (w : World) (c : TCtl) (f mode : Nat) : Except Panic World := d
     let had := (w.futs.getD f {}).awWaker
     let w := w.modFut f fun s => { s with awWaker := false }
     let w ← w.releaseLock fs.awMutex
-    if had then (w.setStage 43).branch ao .arcDec else pure (w.complete (.val 7))
+    if had then
+      let w := w.modCtl w.tid fun c => { c with taken := fs.awArc }
+      (w.setStage 46).branch (w.arcInfo fs.awArc).obj .arcDec
+    else pure (w.complete (.val 7))
+  | 46 => do
+    let w ← w.wakerDrop c.taken
+    pure (w.complete (.val 7))
   | _ => throw (.internal 90)
+
+/-- `AtomicWaker::take_waker` followed by `f` on the waker taken (stages `base`, `base+1`, …): lock, take, unlock.
+Returns to the caller through `found` (a waker was registered: its `Arc` index and `Notify`) or `none`. -/
+def awTakeStage (w : World) (c : TCtl) (f : Nat) : Except Panic World := do
+  let fs := w.futs.getD f {}
+  match c.stage with
+  | 0 => do
+    let m ← w.getMutex fs.awMutex
+    (w.setStage 1).branch fs.awMutex .opaque (block := m.lock.isSome)
+  | 1 => do
+    let (w, okk) ← w.postAcquire fs.awMutex
+    if !okk then throw .expectedLock
+    let had := (w.futs.getD f {}).awWaker
+    let w := w.modFut f fun s => { s with awWaker := false }
+    let w ← w.releaseLock fs.awMutex
+    if had then
+      let w := w.modCtl w.tid fun c => { c with taken := fs.awArc }
+      (w.setStage 2).branch (w.arcInfo fs.awArc).obj .arcDec
+    else pure (w.complete .unit)
+  | _ => do
+    let w ← w.wakerDrop c.taken
+    pure (w.complete .unit)
 
 /-- `wake f`: `flag.store(1, Release); let w = slot.lock().take(); w.wake()`;
 `wakeref f`: `flag.store(1, Release); let g = slot.lock(); g.as_ref().wake_by_ref(); drop(g)` -/
-def wakeStage (w : World) (c : TCtl) (f : Nat) (byValue : Bool) : Except Panic World := do
+def wakeStage (w : World) (c : TCtl) (f : Nat) (byValue : Bool) (store : Bool := true) : Except Panic World := do
   let fs := w.futs.getD f {}
   match c.stage with
-  | 0 => w.primStart f (.store 1 .rel)
+  | 0 =>
+    if store then w.primStart f (.store 1 .rel)
+    else do
+      -- `wakeq`: no flag store
+      let m ← w.getMutex fs.slotMutex
+      (w.setStage 2).branch fs.slotMutex .opaque (block := m.lock.isSome)
   | 1 => do
     let (w, _) ← w.primEffect f (.store 1 .rel)
     let m ← w.getMutex fs.slotMutex
@@ -587,6 +644,8 @@ def wakeStage (w : World) (c : TCtl) (f : Nat) (byValue : Bool) : Except Panic W
     let (w, okk) ← w.postAcquire fs.slotMutex
     if !okk then throw .expectedLock
     let had := (w.futs.getD f {}).slot
+    -- (a registered waker belongs to the `block_on` in progress: the slot is emptied when it returns)
+    let w := w.modCtl w.tid fun c => { c with taken := fs.arc, takenNotify := fs.notify }
     if byValue then
       let w := w.modFut f fun s => { s with slot := false }
       let w ← w.releaseLock fs.slotMutex
@@ -597,14 +656,14 @@ def wakeStage (w : World) (c : TCtl) (f : Nat) (byValue : Bool) : Except Panic W
         let w ← w.releaseLock fs.slotMutex
         pure (w.complete .unit)
   | 3 => do
-    let w ← w.notifyEffect fs.notify
-    (w.setStage 4).branch (w.arcInfo fs.arc).obj .arcDec
+    let w ← w.notifyEffect c.takenNotify
+    (w.setStage 4).branch (w.arcInfo c.taken).obj .arcDec
   | 4 => do
-    let w ← w.wakerDrop fs.arc
+    let w ← w.wakerDrop c.taken
     pure (w.complete .unit)
   | _ => do
     -- by reference: notify while the guard is held, then unlock
-    let w ← w.notifyEffect fs.notify
+    let w ← w.notifyEffect c.takenNotify
     let w ← w.releaseLock fs.slotMutex
     pure (w.complete .unit)
 
@@ -986,14 +1045,52 @@ def runOp (w : World) (c : TCtl) (op : Op) : Except Panic World := do
       let had := (w.futs.getD f {}).awWaker
       let w := w.modFut f fun s => { s with awWaker := false }
       let w ← w.releaseLock fs.awMutex
-      if had then (w.setStage 3).branch (w.futs.getD f {}).notify .opaque
+      -- the waker taken is the one registered last; it notifies the `block_on` it was cloned from
+      if had then
+        let w := w.modCtl w.tid fun c => { c with taken := fs.awArc, takenNotify := fs.awNotify }
+        (w.setStage 3).branch fs.awNotify .opaque
       else pure (w.complete .unit)
     | 3 => do
-      let w ← w.notifyEffect fs.notify
-      (w.setStage 4).branch (w.arcInfo fs.arc).obj .arcDec
+      let w ← w.notifyEffect c.takenNotify
+      (w.setStage 4).branch (w.arcInfo c.taken).obj .arcDec
     | _ => do
-      let w ← w.wakerDrop fs.arc
+      let w ← w.wakerDrop c.taken
       pure (w.complete .unit)
+  | .wakeQ f => w.wakeStage c f false (store := false)
+  | .wClone f =>
+    let fs := w.futs.getD f {}
+    match c.stage with
+    | 0 => do
+      let m ← w.getMutex fs.slotMutex
+      (w.setStage 1).branch fs.slotMutex .opaque (block := m.lock.isSome)
+    | 1 => do
+      let (w, okk) ← w.postAcquire fs.slotMutex
+      if !okk then throw .expectedLock
+      if (w.futs.getD f {}).slot then
+        -- `Waker::clone` → `Arc` ref_inc (a branch point) while the guard is held
+        (w.setStage 2).branch (w.arcInfo fs.arc).obj .arcInc
+      else do
+        let w ← w.releaseLock fs.slotMutex
+        pure (w.complete (.val 0))
+    | _ => do
+      let w ← w.wakerClone fs.arc
+      let w := w.modCtl w.tid fun c => { c with held := (f, fs.arc, fs.notify) :: c.held.filter (·.1 != f) }
+      let w ← w.releaseLock fs.slotMutex
+      pure (w.complete (.val 1))
+  | .wakeH f =>
+    match c.held.lookup f with
+    | none => pure (w.complete .unit)
+    | some (a, n) =>
+      match c.stage with
+      | 0 => (w.setStage 1).branch n .opaque
+      | 1 => do
+        let w ← w.notifyEffect n
+        (w.setStage 2).branch (w.arcInfo a).obj .arcDec
+      | _ => do
+        let w ← w.wakerDrop a
+        let w := w.modCtl w.tid fun c => { c with held := c.held.filter (·.1 != f) }
+        pure (w.complete .unit)
+  | .awTake f => w.awTakeStage c f
   | .stop => do
     let p ← w.exec.path.critical
     pure ((w.setPath p).complete .unit)
